@@ -2,11 +2,12 @@
 # usage: tools/seed_try.sh <patch.diff> <prop> [<prop>...]   — applies the patch to /repo, runs the checks, undoes it
 set -u
 patch="$1"; shift
-cd /repo || exit 2
+REPO="${WW_REPO:-/repo}"; OUT="${WW_OUT:-/var/tmp/seed_out}"
+cd "$REPO" || exit 2
 if ! git diff --quiet; then echo "repo dirty"; exit 2; fi
 git apply "$patch" || { echo "patch does not apply"; exit 2; }
 for p in "$@"; do
-  out=$(cd /verif && bin/check "$p" --outdir /var/tmp/seed_out 2>&1); rc=$?
+  out=$(cd /verif && WW_REPO="$REPO" bin/check "$p" --outdir "$OUT" 2>&1); rc=$?
   echo "== $p rc=$rc"; echo "$out" | grep -E "VIOLATION|KNOWN|OK property|INCONCLUSIVE|failed obligation" | head -6
 done
 git checkout -- . ; git clean -fdq -- contracts packages 2>/dev/null
